@@ -186,10 +186,18 @@ def _unpack(t):
     key = 'unpack:%s:req%+d:%s' % (shape_key(lens), num - n, {False: 'dst', True: 'null', 'first': 'null0', 'rest': 'dst0'}[nulldst])
     where = FC.fnloc(ctx, UNPACK)
     out = []
-    ws = [x for x in ws if x.status != 'infeasible']
-    if len(ws) != 1:
+    ws = [x for x in ws if x.status != 'infeasible' and not B.PathCond(x.decisions).infeasible]
+    if not ws or len(ws) >= 8:
         return [('undecided', key, '%s [%s]: %d worlds' % (where, desc, len(ws)))], 0
-    w = ws[0]
+    for w in ws:
+        res1 = _unpack_world(w, mod, lens, num, n, nulldst, isnull, desc, key, where)
+        if res1[0]:
+            return res1
+    return [], 1
+
+
+def _unpack_world(w, mod, lens, num, n, nulldst, isnull, desc, key, where):
+    out = []
     if w.oob:
         out.append(('violation', 'unpack:over-read' if (num > n and w.oob[0][0] == 'packed') else key + ':extent',
                     '%s [%s]: %s - beyond the array\'s recorded length' % (where, desc, FC.fmt_oob(w.oob[0]))))
@@ -223,6 +231,8 @@ def _unpack(t):
             out.append(('violation', key + ':desc', '%s [%s]: the caller\'s string descriptor %d is overwritten beyond data_length' % (where, desc, k)))
             break
     return out, (0 if out else 1)
+
+
 
 
 def run(ctx, tier, res, tag=''):
